@@ -12,6 +12,11 @@ ASSUMPTIONS = ["the theorems quantify over event sequences without shutdown requ
 
 def run(seed, tier, replay=None):
     result = {"evaluations": 0, "distinct_nontrivial": 0, "rule": "", "samples": [], "traces": 0, "dist": {}, "violations": [], "broken": []}
+    t = tim.run_timer(seed, tier)
+    for k in ("evaluations", "distinct_nontrivial", "traces"): result[k] += t[k]
+    result["rule"] = t["rule"]; result["samples"] += t["samples"]; result["dist"].update(t["dist"])
+    for k in ("violations", "broken"): result[k] += t[k]
+    result["impl_failures"] = t["impl_failures"]
     r = mix.merge(result, tim.run_family("slow", seed, tier, 8, 80))
     # the deadline counts running time: stop/continue before the deadline, in the grace period
     return mix.merge(r, tim.run_family("stop", seed, tier, 3, 24, kinds=("early", "late", "signalled", "model", "hang")))
